@@ -45,6 +45,7 @@
 -/
 import BacVerif.Lemmas.C03Def
 import BacVerif.Gen.Schemas
+import BacVerif.Props.C02
 namespace BacVerif.C03
 open BacVerif BacVerif.Schema BacVerif.Codec BacVerif.SchemaWF
 
@@ -178,5 +179,185 @@ theorem codec_reencode_partial (env : Env) (I : Table) (hwf : WFEnv env I) (τ :
   simp only [Except.ok.injEq, Prod.mk.injEq] at this
   obtain ⟨rfl, rfl⟩ := this
   exact ⟨rfl, he⟩
+
+/-- **codec_octets_partial**: composition with C02 — the octets `TagList.encode`
+    produces parse back to the same tag list and decode to the value.  (Side
+    condition: the emitted tags are well-formed in the sense of C02 — tag numbers
+    ≤ 255, data shorter than 2^32 octets; contexts ≤ 254 are part of `WFEnv`,
+    payload sizes belong to the leaves, C01.) -/
+theorem codec_octets_partial (env : Env) (I : Table) (hwf : WFEnv env I) (τ : Nat)
+    (hsup : (look I τ).sup = true) (v : Val) (hc : conforms env τ v = true) :
+    ∃ ts, encodeTy env τ v = .ok ts ∧
+      ((∀ t ∈ ts, C02.WF t) →
+        parseTags (serializeTags ts) = .ok ts ∧ decodePdu env τ ts = .ok v) := by
+  obtain ⟨ts, he, hd⟩ := pdu_roundtrip_partial env I hwf τ hsup v hc
+  exact ⟨ts, he, fun hw => ⟨C02.taglist_roundtrip ts hw, hd⟩⟩
+
+/-! ## the generated environment -/
+
+/-- **gen_env_wf**: the environment generated from the live classes of the tree
+    under test is well-formed — re-checked by kernel evaluation on every run. -/
+theorem gen_env_wf : WFEnv Gen.Schemas.env Gen.Schemas.info := by decide +kernel
+
+theorem lookup_mem {reg : List (Nat × Nat)} {c i : Nat} (h : lookup reg c = some i) : (c, i) ∈ reg := by
+  induction reg with
+  | nil => simp [lookup] at h
+  | cons p r ih =>
+    obtain ⟨c', i'⟩ := p
+    unfold lookup at h
+    split at h
+    · simp_all
+    · exact List.mem_cons_of_mem _ (ih h)
+
+/-- a registry accepted by `registryOK` sends every service choice it knows to a
+    sequence class registered under the right PDU kind -/
+theorem registry_lookup (env : Env) (kinds : List (Nat × PduKind)) (k : PduKind)
+    (reg : List (Nat × Nat)) (h : registryOK env kinds k reg = true) {c τ : Nat}
+    (hl : lookup reg c = some τ) :
+    c ≤ 255 ∧ (τ, k) ∈ kinds ∧ ∃ fs, env[τ]? = some (.seq fs) := by
+  unfold registryOK at h
+  rw [List.all_eq_true] at h
+  have := h (c, τ) (lookup_mem hl)
+  simp only [Bool.and_eq_true, decide_eq_true_eq, List.contains_iff_mem] at this
+  obtain ⟨⟨h1, h2⟩, h3⟩ := this
+  refine ⟨h1, h2, ?_⟩
+  split at h3
+  · rename_i fs heq; exact ⟨fs, heq⟩
+  · simp at h3
+
+/-- **registries_total**: the four service registries of apdu.py
+    (`confirmed_request_types`, `complex_ack_types`, `unconfirmed_request_types`,
+    `error_types`) point at sequences of the right PDU kind. -/
+theorem registries_total :
+    registryOK Gen.Schemas.env Gen.Schemas.pduKinds .confirmed Gen.Schemas.confirmed = true ∧
+    registryOK Gen.Schemas.env Gen.Schemas.pduKinds .complexAck Gen.Schemas.complexAck = true ∧
+    registryOK Gen.Schemas.env Gen.Schemas.pduKinds .unconfirmed Gen.Schemas.unconfirmed = true ∧
+    registryOK Gen.Schemas.env Gen.Schemas.pduKinds .error Gen.Schemas.error = true := by
+  decide +kernel
+
+/-- every registered PDU of the supported fragment round-trips through
+    `APCISequence.encode/decode` (corollary per registry) -/
+theorem registered_pdu_roundtrip_partial (reg : List (Nat × Nat)) (c τ : Nat)
+    (_hl : lookup reg c = some τ) (hsup : (look Gen.Schemas.info τ).sup = true)
+    (v : Val) (hc : conforms Gen.Schemas.env τ v = true) :
+    ∃ ts, encodeTy Gen.Schemas.env τ v = .ok ts ∧ decodePdu Gen.Schemas.env τ ts = .ok v :=
+  pdu_roundtrip_partial _ _ gen_env_wf τ hsup v hc
+
+/-! ## non-vacuity -/
+
+section NonVacuity
+open Gen.Schemas
+
+/-- type index of a registered service -/
+def svc (reg : List (Nat × Nat)) (c : Nat) : Nat := (lookup reg c).getD 0
+
+/-- ReadProperty-ACK (analog-input 5, present-value, index 3, value = `[3] { Real 72.3, [1] { Unsigned 7 } }`) -/
+def exAck : Val :=
+  .seq [some (.prim 4 [0, 0, 0, 5]), some (.prim 1 [0x55]), some (.prim 1 [3]),
+        some (.tags [⟨.app, 4, 4, [0x42, 0x90, 0x99, 0x9a]⟩, ⟨.opening, 1, 0, []⟩,
+                     ⟨.app, 2, 1, [7]⟩, ⟨.closing, 1, 0, []⟩])]
+
+example : (look info (svc complexAck 12)).sup = true ∧ conforms env (svc complexAck 12) exAck = true := by
+  decide +kernel
+
+/-- the hypotheses of the theorems are met by a non-trivial instance … -/
+example : ∃ ts, encodeTy env (svc complexAck 12) exAck = .ok ts ∧ decodePdu env (svc complexAck 12) ts = .ok exAck :=
+  pdu_roundtrip_partial env info gen_env_wf _ (by decide +kernel) exAck (by decide +kernel)
+
+/-- … ReadPropertyMultiple-ACK: a context-less list of structures with nested lists and a choice -/
+def exRpmAck : Val :=
+  .seq [some (.list [
+    .seq [some (.prim 4 [0, 0, 0, 5]),
+          some (.list [.seq [some (.prim 1 [0x55]), none, some (.choice 0 (.tags [⟨.app, 4, 4, [0, 0, 0, 0]⟩]))],
+                       .seq [some (.prim 1 [0x4d]), some (.prim 1 [2]),
+                             some (.choice 1 (.seq [some (.prim 1 [2]), some (.prim 1 [32])]))]])],
+    .seq [some (.prim 4 [0, 0x80, 0, 1]), some (.list [])]])]
+
+example : ∃ ts, encodeTy env (svc complexAck 14) exRpmAck = .ok ts ∧
+    decodePdu env (svc complexAck 14) ts = .ok exRpmAck :=
+  pdu_roundtrip_partial env info gen_env_wf _ (by decide +kernel) exRpmAck (by decide +kernel)
+
+/-- the predicate is not trivially true: an optional element that can be mistaken
+    for the required one after it is refused (same context number twice) … -/
+def ambiguous : Env := #[.seq [⟨.prim 2, some 0, true⟩, ⟨.prim 2, some 0, false⟩]]
+example : ¬ WFEnv ambiguous (mkInfo ambiguous) := by decide +kernel
+
+/-- … as are a context number that does not fit a tag, a constructed choice
+    alternative without context, and a list whose element may be empty -/
+example : ¬ WFEnv #[.choice [⟨.prim 9, some 370, false⟩]] (mkInfo #[.choice [⟨.prim 9, some 370, false⟩]]) := by
+  decide +kernel
+example : ¬ WFEnv #[.seq [⟨.prim 2, some 0, false⟩], .choice [⟨.prim 2, none, false⟩, ⟨.ty 0, none, false⟩]]
+    (mkInfo #[.seq [⟨.prim 2, some 0, false⟩], .choice [⟨.prim 2, none, false⟩, ⟨.ty 0, none, false⟩]]) := by
+  decide +kernel
+example : ¬ WFEnv #[.seq [⟨.prim 2, some 0, true⟩], .list .seqof (.ty 0) none]
+    (mkInfo #[.seq [⟨.prim 2, some 0, true⟩], .list .seqof (.ty 0) none]) := by
+  decide +kernel
+
+/-- the follow-set condition is needed: an Any without context swallows what follows -/
+example : decodeTy #[.any] 0 ([⟨.app, 2, 1, [1]⟩] ++ [⟨.app, 2, 1, [2]⟩]) =
+    .ok (.tags [⟨.app, 2, 1, [1]⟩, ⟨.app, 2, 1, [2]⟩], []) := by rfl
+
+end NonVacuity
+
+/-! ## Annex F worked examples — TESTS (a finite list is not the theorem)
+
+    Octets and parameter values are recalled from the standard (135, Annex F);
+    each example is also run against the implementation by harness/c03.py
+    (`annex-f` stream).  `annexOK`: the published octets decode (through the
+    registry, `TagList.decode`, `APCISequence.decode`) to the published value and
+    the value encodes to exactly the published octets. -/
+
+section AnnexF
+open Gen.Schemas
+
+def annexOK (reg : List (Nat × Nat)) (choice : Nat) (octets : Bytes) (v : Val) : Bool :=
+  match lookup reg choice with
+  | none => false
+  | some τ =>
+    (match parseTags octets with
+     | .error _ => false
+     | .ok ts => match decodePdu env τ ts with
+       | .ok v' => v'.beq v
+       | .error _ => false) &&
+    (match encodeTy env τ v with
+     | .ok ts => serializeTags ts == octets
+     | .error _ => false)
+
+/-- TEST F.3.5 ReadProperty request: (analog-input, 5), present-value -/
+example : annexOK confirmed 12 [0x0C, 0x00, 0x00, 0x00, 0x05, 0x19, 0x55]
+    (.seq [some (.prim 4 [0, 0, 0, 5]), some (.prim 1 [85]), none]) = true := by decide +kernel
+
+/-- TEST F.3.5 ReadProperty ack: value Real 72.3 = X'4290999A' -/
+example : annexOK complexAck 12
+    [0x0C, 0x00, 0x00, 0x00, 0x05, 0x19, 0x55, 0x3E, 0x44, 0x42, 0x90, 0x99, 0x9A, 0x3F]
+    (.seq [some (.prim 4 [0, 0, 0, 5]), some (.prim 1 [85]), none,
+           some (.tags [⟨.app, 4, 4, [0x42, 0x90, 0x99, 0x9A]⟩])]) = true := by decide +kernel
+
+/-- TEST Who-Is with limits 3..3 -/
+example : annexOK unconfirmed 8 [0x09, 0x03, 0x19, 0x03]
+    (.seq [some (.prim 1 [3]), some (.prim 1 [3])]) = true := by decide +kernel
+
+/-- TEST Who-Is without limits: no parameter octets at all -/
+example : annexOK unconfirmed 8 [] (.seq [none, none]) = true := by decide +kernel
+
+/-- TEST I-Am: (device, 3), max APDU 1024, no segmentation (3), vendor 99 -/
+example : annexOK unconfirmed 0
+    [0xC4, 0x02, 0x00, 0x00, 0x03, 0x22, 0x04, 0x00, 0x91, 0x03, 0x21, 0x63]
+    (.seq [some (.prim 4 [2, 0, 0, 3]), some (.prim 2 [4, 0]), some (.prim 1 [3]), some (.prim 1 [99])]) = true := by
+  decide +kernel
+
+/-- TEST F.3.9 WriteProperty request: (analog-value, 1), present-value, Real 180.0, priority 8 -/
+example : annexOK confirmed 15
+    [0x0C, 0x00, 0x80, 0x00, 0x01, 0x19, 0x55, 0x3E, 0x44, 0x43, 0x34, 0x00, 0x00, 0x3F, 0x49, 0x08]
+    (.seq [some (.prim 4 [0, 0x80, 0, 1]), some (.prim 1 [85]), none,
+           some (.tags [⟨.app, 4, 4, [0x43, 0x34, 0, 0]⟩]), some (.prim 1 [8])]) = true := by decide +kernel
+
+/-- TEST SubscribeCOV request: process 18, (analog-input, 10), confirmed, lifetime 0 -/
+example : annexOK confirmed 5
+    [0x09, 0x12, 0x1C, 0x00, 0x00, 0x00, 0x0A, 0x29, 0x01, 0x39, 0x00]
+    (.seq [some (.prim 1 [18]), some (.prim 4 [0, 0, 0, 10]), some (.prim 1 []), some (.prim 1 [0])]) = true := by
+  decide +kernel
+
+end AnnexF
 
 end BacVerif.C03
